@@ -87,7 +87,7 @@ def check(d, props="all"):
         rc, out = sh("git apply --3way %s && git reset -q" % os.path.join(d, "patch.diff"), cwd=REPO)
         if rc != 0:
             return {"applies_to_repo": False, "out": out[-400:]}
-        rc, out = sh("%s/bin/anonverif -prop %s -tier quick -repo %s -evidence %s -known %s/known_findings.json" % (VERIF, props, REPO, ev, VERIF))
+        rc, out = sh("%s -prop %s -tier quick -repo %s -evidence %s -known %s/known_findings.json" % (os.environ.get("VERIF_BIN", VERIF + "/bin/anonverif"), props, REPO, ev, VERIF))
         fired = []
         for l in out.splitlines():
             if l.strip().startswith("VIOLATED"):
@@ -114,7 +114,7 @@ def wcheck(d, props="all"):
         rc, out = sh("git apply --3way %s && git reset -q" % os.path.join(d, "patch.diff"), cwd=wt)
         if rc != 0:
             return {"applies_to_repo": False, "out": out[-400:]}
-        rc, out = sh("%s/bin/anonverif -prop %s -tier quick -repo %s -evidence %s -known %s/known_findings.json" % (VERIF, props, wt, ev, VERIF))
+        rc, out = sh("%s -prop %s -tier quick -repo %s -evidence %s -known %s/known_findings.json" % (os.environ.get("VERIF_BIN", VERIF + "/bin/anonverif"), props, wt, ev, VERIF))
         res["exit"] = rc
         res["violated_properties"] = sorted(set(l.split("property=")[1].split()[0] for l in out.splitlines() if l.startswith("VIOLATION")))
         res["fired"] = [l.strip()[:300] for l in out.splitlines() if l.strip().startswith("VIOLATED")]
